@@ -105,7 +105,7 @@ func NewRun(prop, tier, level string) *Run {
 	seed, _ := strconv.Atoi(os.Getenv("VERIF_SEED"))
 	r := &Run{Prop: prop, Tier: tier, Seed: seed, Level: level, start: time.Now(),
 		nontrivial: map[[8]byte]struct{}{}, violSigs: map[string]int{}, knownHit: map[string]int{},
-		Extra: map[string]interface{}{}, exhaustive: true, counters: map[string]*int64{}, maxViol: 40}
+		Extra: map[string]interface{}{}, exhaustive: true, counters: map[string]*int64{}, maxViol: 300}
 	r.findings = loadFindings(prop)
 	budget := 100 * time.Second
 	if tier == "thorough" {
